@@ -57,14 +57,15 @@ type mProposal struct {
 }
 
 type govModel struct {
-	s          *scn
-	proposals  map[string]*mProposal
-	open       []string          // ids in creation order (for vote targeting)
-	objStatus  map[string]string // "chain:<id>" / "svc:<chain>:<id>" -> status after the previous block
-	objRaw     map[string]string
-	forbidden  map[string]bool
-	blocked    map[string]map[string]bool // "svc:<chain>:<id>" -> full ids of the sources it blocked after the previous block
-	blockedNow map[string]map[string]bool
+	s             *scn
+	proposals     map[string]*mProposal
+	open          []string          // ids in creation order (for vote targeting)
+	objStatus     map[string]string // "chain:<id>" / "svc:<chain>:<id>" -> status after the previous block
+	objRaw        map[string]string
+	forbidden     map[string]bool
+	blocked       map[string]map[string]bool // "svc:<chain>:<id>" -> full ids of the sources it blocked after the previous block
+	blockedNow    map[string]map[string]bool
+	reentrantSeen bool // see afterBlockGov
 }
 
 func newGovModel(s *scn) *govModel {
@@ -407,6 +408,20 @@ func afterBlockGov(s *scn, h uint64, txs []*pb.BxhTransaction, metas []*txMeta, 
 		mp.votes[voter] = mt.note
 		mp.order = append(mp.order, voter)
 	}
+	// a role operation whose own proposal is concluded, inside the very call that submitted it, by the change of the
+	// electorate it causes (known family: the bookkeeping of that re-entrant case is wrong)
+	reentrant := false
+	for _, id := range gm.open {
+		if mp := gm.proposals[id]; mp != nil && mp.createdAt == h {
+			if pv, _ := gm.proposal(id); pv != nil && pv.Typ == "role_mgr" && pv.EndReason == "not enough valid electorate" {
+				reentrant = true
+				s.res.Count("probe_role_proposal_concluded_by_its_own_electorate_change")
+			}
+		}
+	}
+	if reentrant {
+		gm.reentrantSeen = true
+	}
 	var stillOpen []string
 	for _, id := range gm.open {
 		mp := gm.proposals[id]
@@ -445,7 +460,11 @@ func afterBlockGov(s *scn, h uint64, txs []*pb.BxhTransaction, metas []*txMeta, 
 			if settled && len(pv.ElectorateList) > 0 {
 				s.res.Count("probe_available_electorate_checked")
 				if pv.AvailableElectorateNum != real {
-					s.vio("C15", "available-electorate-mismatch", "", "after block %d open proposal %s records %d available electors, %d of its %d electors have an available role", h, id, pv.AvailableElectorateNum, real, len(pv.ElectorateList))
+					discr := ""
+					if gm.reentrantSeen {
+						discr = "after-a-role-proposal-was-concluded-by-its-own-electorate-change"
+					}
+					s.vio("C15", "available-electorate-mismatch", discr, "after block %d open proposal %s records %d available electors, %d of its %d electors have an available role", h, id, pv.AvailableElectorateNum, real, len(pv.ElectorateList))
 				}
 			}
 		}
